@@ -144,6 +144,11 @@ void density_sketch<T, K, A>::compact_level(unsigned height) {
   auto& level = levels_[height];
   std::vector<bool> bits(level.size());
   bits[0] = random_utils::random_bit();
+#ifdef DATASKETCHES_VERIF
+  if (random_utils::verif_src()) { // Fisher-Yates over the installed source
+    for (size_t i = level.size(); i > 1; --i) std::swap(level[i - 1], level[random_utils::verif_src()->index(i)]);
+  } else
+#endif
   std::shuffle(level.begin(), level.end(), random_utils::rand);
   for (unsigned i = 1; i < level.size(); ++i) {
     T delta = 0;
